@@ -193,7 +193,7 @@ def gen(rng, n_reset, n_mc):
             spec["ctrl"]["ict"] = c06.fallible_ict(rng, spec)
             if (j // 2) % 2 == 0:
                 spec["ctrl"]["ict"]["line_names"] = [f"F0L{k}" for k in range(len(spec["ctrl"]["ict"]["lines"]))]
-        cases.append({"kind": "mc", "spec": spec, "n_inc": 10, "iters": rng.choice([6, 7]), "seed": rng.randint(0, 10 ** 6),
+        cases.append({"kind": "mc", "spec": spec, "n_inc": 10, "iters": rng.choice([6, 7]), "seed": rng.randint(1, 10 ** 6) if j else 0,      # the first one runs with seed 0
                       "rate": rng.choice([800.0, 2000.0]), "rep": rng.choice([3.0, 5.0]), "dist0": 0 if j % 2 == 0 else rng.randrange(4), "procs": [1, rng.choice([2, 3])]})   # dist0 = 0: the first line draws from the truncated normal
     return cases
 
